@@ -29,6 +29,7 @@ import (
 	"time"
 
 	"github.com/postalsys/muti-metroo/internal/verifhook"
+	"nhooyr.io/websocket"
 )
 
 type zzvUTok struct {
@@ -42,7 +43,7 @@ type zzvUTok struct {
 
 type zzvUState struct {
 	Assoc    string   `json:"assoc"`
-	Declared bool     `json:"declared"`
+	Declared string   `json:"declared"` // none | own | str: the address the association filters on
 	Client   string   `json:"client"`
 	Relayed  []string `json:"relayed"`
 	Replies  []string `json:"replies"`
@@ -56,6 +57,7 @@ type zzvUStep struct {
 }
 
 type zzvUPath struct {
+	Tr     string     `json:"tr"`
 	ID     int        `json:"id"`
 	Attack string     `json:"attack"`
 	Steps  []zzvUStep `json:"steps"`
@@ -140,6 +142,10 @@ func zzvNewUWorld(t *testing.T) *zzvUWorld {
 	if err := w.srv.Start(); err != nil {
 		t.Fatal(err)
 	}
+	// the same server behind its WebSocket listener (SOCKS5 over WebSocket: the handler cannot see the peer address)
+	if err := w.srv.StartWebSocket(WebSocketConfig{Address: "127.0.0.1:0", Path: "/socks5", PlainText: true}); err != nil {
+		t.Fatal(err)
+	}
 	return w
 }
 
@@ -166,6 +172,8 @@ func (w *zzvUWorld) waitLoops(a *UDPAssociation, n int, d time.Duration) bool {
 type zzvUConn struct {
 	w        *zzvUWorld
 	tcp      net.Conn
+	tr       string
+	ws       *websocket.Conn
 	socks    map[string]*net.UDPConn
 	assoc    *UDPAssociation
 	stream   uint64
@@ -175,14 +183,19 @@ type zzvUConn struct {
 	replies  []string
 }
 
-func (w *zzvUWorld) open() (*zzvUConn, error) {
-	c := &zzvUConn{w: w, socks: map[string]*net.UDPConn{}}
+// open prepares the sockets; with tr "raw" it also opens the TCP control connection from 127.0.0.1 (with "ws" the
+// control connection is made by the WS token).
+func (w *zzvUWorld) open(tr string) (*zzvUConn, error) {
+	c := &zzvUConn{w: w, socks: map[string]*net.UDPConn{}, tr: tr}
 	for _, n := range zzvSenderNames {
 		s, err := net.ListenUDP("udp4", &net.UDPAddr{IP: net.ParseIP(zzvSenderIP[n])})
 		if err != nil {
 			return nil, fmt.Errorf("bind %s: %w", zzvSenderIP[n], err)
 		}
 		c.socks[n] = s
+	}
+	if tr == "ws" {
+		return c, nil
 	}
 	d := net.Dialer{LocalAddr: &net.TCPAddr{IP: net.IPv4(127, 0, 0, 1)}, Timeout: 3 * time.Second}
 	tcp, err := d.Dial("tcp", w.srv.Address().String())
@@ -194,6 +207,9 @@ func (w *zzvUWorld) open() (*zzvUConn, error) {
 }
 
 func (c *zzvUConn) close() {
+	if c.ws != nil {
+		c.ws.Close(websocket.StatusNormalClosure, "")
+	}
 	if c.tcp != nil {
 		c.tcp.Close()
 	}
@@ -230,7 +246,7 @@ func (c *zzvUConn) senderName(a *net.UDPAddr) string {
 }
 
 func (c *zzvUConn) state() zzvUState {
-	st := zzvUState{Assoc: "none", Client: "none", Relayed: []string{}, Replies: append([]string{}, c.replies...)}
+	st := zzvUState{Assoc: "none", Declared: "none", Client: "none", Relayed: []string{}, Replies: append([]string{}, c.replies...)}
 	if c.assoc == nil {
 		return st
 	}
@@ -239,7 +255,17 @@ func (c *zzvUConn) state() zzvUState {
 		st.Assoc = "closed"
 	}
 	c.assoc.mu.RLock()
-	st.Declared = c.assoc.ExpectedClientAddr != nil
+	st.Declared = "none"
+	if e := c.assoc.ExpectedClientAddr; e != nil {
+		switch {
+		case e.IP.Equal(net.IPv4(127, 0, 0, 1)):
+			st.Declared = "own"
+		case e.IP.Equal(net.IPv4(127, 0, 0, 2)):
+			st.Declared = "str"
+		default:
+			st.Declared = "other:" + e.String()
+		}
+	}
 	st.Client = c.senderName(c.assoc.ActualClientAddr)
 	c.assoc.mu.RUnlock()
 	c.w.rec.mu.Lock()
@@ -256,6 +282,16 @@ func (c *zzvUConn) state() zzvUState {
 func (c *zzvUConn) step(tok zzvUTok) (rep []string, res string, err error) {
 	rep = []string{}
 	switch tok.T {
+	case "WS":
+		ctx, cancel := context.WithTimeout(context.Background(), 5*time.Second)
+		defer cancel()
+		wc, _, e := websocket.Dial(ctx, "ws://"+c.w.srv.WebSocketAddress()+"/socks5", &websocket.DialOptions{Subprotocols: []string{"socks5"}})
+		if e != nil {
+			return rep, "", fmt.Errorf("websocket upgrade: %v", e)
+		}
+		c.ws = wc
+		c.tcp = websocket.NetConn(context.Background(), wc, websocket.MessageBinary)
+		return []string{"H101"}, "", nil
 	case "G":
 		ms := []byte{5, byte(len(tok.M))}
 		for _, m := range tok.M {
@@ -280,6 +316,9 @@ func (c *zzvUConn) step(tok zzvUTok) (rep []string, res string, err error) {
 			req = []byte{5, 3, 0, 1, 0, 0, 0, 0, 0, 0}
 		case "ip4":
 			req = []byte{5, 3, 0, 1, 127, 0, 0, 1, byte(own.Port >> 8), byte(own.Port)}
+		case "ip4str": // names a stranger's address
+			str := c.socks["str1"].LocalAddr().(*net.UDPAddr)
+			req = []byte{5, 3, 0, 1, 127, 0, 0, 2, byte(str.Port >> 8), byte(str.Port)}
 		case "dom":
 			d := "client.test"
 			req = append([]byte{5, 3, 0, 3, byte(len(d))}, d...)
@@ -391,7 +430,12 @@ func (c *zzvUConn) step(tok zzvUTok) (rep []string, res string, err error) {
 		c.replies = append(c.replies, got)
 		return rep, "sent", nil
 	case "EOF":
-		c.tcp.Close()
+		if c.ws != nil {
+			c.ws.Close(websocket.StatusNormalClosure, "")
+		}
+		if c.tcp != nil {
+			c.tcp.Close()
+		}
 		if c.assoc != nil {
 			// Close() marks the association closed, closes the relay socket and then tells the mesh handler:
 			// wait for that last call, so that no datagram can slip in while Close() is in progress
@@ -430,16 +474,36 @@ func zzvSameU(a, b zzvUState) bool {
 		zzvSameStrs(a.Relayed, b.Relayed) && zzvSameStrs(a.Replies, b.Replies)
 }
 
+// zzvOwner: whose datagrams may be served.  Plain TCP: the source IP of the control connection ("own"), whatever the
+// request declares.  WebSocket: the handler cannot see the peer, the owner is the declared address ("own" / "str"); if
+// nothing is declared there is no identity to check ("any").
+func zzvOwner(tr, reqAddr string) string {
+	if tr != "ws" {
+		return "own"
+	}
+	switch reqAddr {
+	case "ip4":
+		return "own"
+	case "ip4str":
+		return "str"
+	}
+	return "any"
+}
+
 // zzvUViolates is the property oracle on the observed state: something relayed for, or replied to, a non-owner.
-func zzvUViolates(st zzvUState) []string {
+func zzvUViolates(st zzvUState, owner string) []string {
 	var bad []string
+	if owner == "any" {
+		return bad
+	}
+	ipOf := map[string]string{"own1": "own", "own2": "own", "str1": "str", "str2": "oth"}
 	for _, s := range st.Relayed {
-		if !strings.HasPrefix(s, "own") {
+		if ipOf[s] != owner {
 			bad = append(bad, "relayed:"+s)
 		}
 	}
 	for _, s := range st.Replies {
-		if !strings.HasPrefix(s, "own") {
+		if ipOf[s] != owner {
 			bad = append(bad, "reply-to:"+s)
 		}
 	}
@@ -453,11 +517,12 @@ func TestZZVUdpReplay(t *testing.T) {
 	defer w.stop()
 	steps, mism, viol, attacks := 0, 0, 0, 0
 	for _, p := range in.Paths {
-		c, err := w.open()
+		c, err := w.open(p.Tr)
 		if err != nil {
 			t.Fatalf("path %d: %v", p.ID, err)
 		}
 		first := -1
+		reqAddr := ""
 		var trace []map[string]any
 		var bad []string
 		for si, st := range p.Steps {
@@ -473,7 +538,10 @@ func TestZZVUdpReplay(t *testing.T) {
 			if first < 0 && (res != st.Res || !zzvSameStrs(rep, st.Rep) || !zzvSameU(real, st.T)) {
 				first = si
 			}
-			bad = zzvUViolates(real)
+			if st.Tok.T == "R" {
+				reqAddr = st.Tok.Addr
+			}
+			bad = zzvUViolates(real, zzvOwner(p.Tr, reqAddr))
 		}
 		c.close()
 		if p.Attack != "" {
@@ -510,21 +578,30 @@ func TestZZVUdpTrace(t *testing.T) {
 	}
 	w := zzvNewUWorld(t)
 	defer w.stop()
-	cfg := map[string]any{"tr": "raw", "auth": false, "users": "none", "udp": true, "icmp": true, "dial": "ok"}
 	events, viol, relayed, replies := 0, 0, 0, 0
 	for tr := 0; tr < ntraces; tr++ {
-		c, err := w.open()
+		transport := []string{"raw", "raw", "ws"}[rng.Intn(3)]
+		cfg := map[string]any{"tr": transport, "auth": false, "users": "none", "udp": true, "icmp": true, "dial": "ok"}
+		c, err := w.open(transport)
 		if err != nil {
 			t.Fatal(err)
 		}
 		put(map[string]any{"ev": "Reset", "cfg": cfg})
+		if transport == "ws" {
+			wrep, _, err := c.step(zzvUTok{T: "WS", K: "none"})
+			if err != nil {
+				t.Fatal(err)
+			}
+			put(map[string]any{"ev": "Tok", "tok": map[string]any{"t": "WS", "k": "none"}, "rep": wrep, "ex": "", "closed": false})
+			events++
+		}
 		g := zzvUTok{T: "G", K: "ok", M: []int{0}}
 		rep, _, err := c.step(g)
 		if err != nil {
 			t.Fatal(err)
 		}
 		put(map[string]any{"ev": "Tok", "tok": map[string]any{"t": "G", "k": "ok", "m": []int{0}}, "rep": rep, "ex": "", "closed": false})
-		addr := []string{"zero4", "ip4", "dom"}[rng.Intn(3)]
+		addr := []string{"zero4", "ip4", "dom", "ip4str", "ip4", "ip4str"}[rng.Intn(6)]
 		rep, _, err = c.step(zzvUTok{T: "R", Cmd: "udp", Addr: addr, K: "full"})
 		if err != nil {
 			t.Fatal(err)
@@ -564,15 +641,15 @@ func TestZZVUdpTrace(t *testing.T) {
 				put(map[string]any{"ev": "Tok", "tok": tj, "rep": []string{}, "ex": "", "closed": true})
 			} else {
 				put(map[string]any{"ev": "Udp", "tok": tj, "res": res, "client": last.Client, "relayed": last.Relayed,
-					"replies": last.Replies})
+					"replies": last.Replies, "declared": last.Declared})
 			}
 			events++
 		}
 		relayed += len(last.Relayed)
 		replies += len(last.Replies)
-		if bad := zzvUViolates(last); len(bad) > 0 {
+		if bad := zzvUViolates(last, zzvOwner(transport, addr)); len(bad) > 0 {
 			viol++
-			zzvEmit("violation", map[string]any{"trace": tr, "declared": addr, "bad": bad, "state": last})
+			zzvEmit("violation", map[string]any{"trace": tr, "transport": transport, "declared": addr, "bad": bad, "state": last})
 		}
 		c.close()
 	}
